@@ -257,6 +257,37 @@ func verif_C11_step(n, pat, shape, op, a1, a2 int) {
 			}
 		}
 		VerifAssert("JointIterator:count", k == len(want))
+	case 14: // iterator parked on an entry that is zeroed and then pruned by a second iteration
+		it := v.Iterator()
+		for k := 0; k < a1 && it.Ok(); k++ {
+			it.Next()
+		}
+		if it.Ok() {
+			cur := it.Index()
+			if cur >= 0 && cur < n {
+				v.At(cur).SetFloat64(0)
+				model[cur] = 0
+			}
+			for it2 := v.ConstIterator(); it2.Ok(); it2.Next() {
+			}
+			prev := cur
+			cnt := 0
+			var got []int
+			for it.Next(); it.Ok(); it.Next() {
+				VerifAssert("parked-iterator:ascending", it.Index() > prev)
+				prev = it.Index()
+				got = append(got, it.Index())
+				cnt++
+				if cnt > n+2 {
+					break
+				}
+			}
+			for i := cur + 1; i < n; i++ {
+				if i >= 0 && model[i] != 0 {
+					VerifAssert("parked-iterator:visits-remaining", verifMember(got, i))
+				}
+			}
+		}
 	default:
 		panic("bad op")
 	}
